@@ -250,6 +250,10 @@ func (ct content) claimTrue(first string, keys, vals []string, more bool) bool {
 		return !more
 	}
 	lb := hexFbig(keys[len(keys)-1])
+	// a claim that starts below [first] states the content of the wider interval [keys[0], last]
+	if k0 := hexFbig(keys[0]); k0.Cmp(fb) < 0 {
+		fb = k0
+	}
 	claim := map[string]string{}
 	for i, k := range keys {
 		claim[hexFbig(k).Text(16)] = hexFbig(vals[i]).Text(16) // later entries win, as Update does
@@ -367,7 +371,8 @@ func runRange(c *hx.Ctx, or *hx.Oracle, rc rangeCase, verbose bool) {
 			c.Hist["range:certified:"+strings.Fields(cg+" ?")[0]]++
 			if cg != g {
 				c.Hist["range:accepted-without-certificate:"+rc.Tamper]++
-				if len(rc.Muts) == 0 && ct.claimTrue(rc.First, rc.Keys, rc.Values, strings.HasSuffix(g, "true")) {
+				startsBelow := len(rc.Keys) > 0 && hexFbig(rc.Keys[0]).Cmp(hexFbig(rc.First)) < 0 // the certificate is about [first,last] only
+				if len(rc.Muts) == 0 && !startsBelow && ct.claimTrue(rc.First, rc.Keys, rc.Values, strings.HasSuffix(g, "true")) {
 					// a true statement accepted although the certificate fails: the certificate would be too strong
 					c.Violation("model:certificate-rejects-true-claim", fmt.Sprintf("%s %s: code %s certified %s", rc.Shape, rc.Tamper, g, cg), rc, true)
 				}
@@ -631,7 +636,8 @@ func corpus(c *hx.Ctx, or *hx.Oracle) {
 		{Trie: t159, First: k250, Shape: "corpus:empty-range-behind-last"},
 		// legacy: claims that are not bound to the proof
 		{Trie: t159, First: "1", Keys: []string{"5", "9"}, Values: []string{"b", "c"}, ProofKeys: []string{"1", "9"}, Tamper: "first-element-omitted", Shape: "corpus"},
-		{Trie: t159, First: "5", Keys: []string{"1", "5", "9"}, Values: []string{"a", "b", "c"}, ProofKeys: []string{"5", "9"}, Tamper: "first-moved-past-first-element", Shape: "corpus"},
+		// trie2: a boundary leaf hanging directly under a binary node is not cut by unset: entry 0 left out
+		{Trie: trieCase{Hash: "ped", Height: 251, Ops: []string{"0:a", "1:b", "9:c"}}, First: "0", Keys: []string{"1", "9"}, Values: []string{"b", "c"}, ProofKeys: []string{"0", "9"}, Tamper: "first-element-omitted", Shape: "corpus"},
 		{Trie: t159, First: "0", Keys: []string{"1", "5", "9"}, Values: []string{"ff", "b", "c"}, Tamper: "value-changed", Shape: "corpus"},
 		{Trie: trieCase{Hash: "ped", Height: 251, Ops: []string{"1:a", k250 + ":b", k250p1 + ":c"}}, First: "2", Tamper: "empty-claim-but-entries-follow", Shape: "corpus"},
 		// both: the single-element branch recomputes no hash (value altered in the claim and in the proof node, node still under its honest hash)
